@@ -18,14 +18,31 @@ function warn_kinds(ws) {
     return out.sort();
 }
 
-async function read_text(rbql_csv, text, enc, dlm, pol, comment_prefix, has_header) {
+function fields_nums(ws) {
+    for (const w of ws) {
+        const m = /record (\d+) -> (\d+) fields, record (\d+) -> (\d+) fields/.exec(w);
+        if (m) return [m[1], m[2], m[3], m[4]].map(Number);
+    }
+    return null;
+}
+
+let scratch_n = 0;
+async function read_text(rbql_csv, text, enc, dlm, pol, comment_prefix, has_header, bulk) {
     const jsenc = enc === 'latin-1' ? 'binary' : 'utf-8';
     const buf = Buffer.from(text, jsenc === 'binary' ? 'latin1' : 'utf-8');
+    let tmp = null;
     try {
-        const s = new Readable({read() {}});
-        s.push(buf);
-        s.push(null);
-        const it = new rbql_csv.CSVRecordIterator(s, null, jsenc, dlm, pol, has_header, comment_prefix || null);
+        let s = null;
+        if (bulk) {
+            // the bulk path: the file is read in one piece (csv_path given, no stream)
+            tmp = path.join(os.tmpdir(), 'c18_' + process.pid + '_' + (scratch_n++ % 8) + '.csv');
+            fs.writeFileSync(tmp, buf);
+        } else {
+            s = new Readable({read() {}});
+            s.push(buf);
+            s.push(null);
+        }
+        const it = new rbql_csv.CSVRecordIterator(s, tmp, jsenc, dlm, pol, has_header, comment_prefix || null);
         const recs = [];
         let header = null;
         if (has_header) header = await it.get_header();
@@ -34,16 +51,19 @@ async function read_text(rbql_csv, text, enc, dlm, pol, comment_prefix, has_head
             if (r === null) break;
             recs.push(r);
         }
-        return {records: recs, header: header, warnings: warn_kinds(it.get_warnings()), error: null};
+        const ws = it.get_warnings();
+        return {records: recs, header: header, warnings: warn_kinds(ws), fields: fields_nums(ws), error: null};
     } catch (e) {
         const n = (e && e.constructor && e.constructor.name) || 'Error';
-        return {records: null, header: null, warnings: null, error: n.includes('IOHandling') ? 'IO' : n};
+        return {records: null, header: null, warnings: null, fields: null, error: n.includes('IOHandling') ? 'IO' : n};
+    } finally {
+        if (tmp !== null) { try { fs.unlinkSync(tmp); } catch (e) {} }
     }
 }
 
 module.exports.run_case = async function (c, repo) {
     const rbql_csv = require(path.join(repo, 'rbql-js', 'rbql_csv.js'));
     const out = [];
-    for (const t of c.texts) out.push(await read_text(rbql_csv, t, c.enc, c.dlm, c.pol, c.comment_prefix, c.has_header || false));
+    for (const t of c.texts) out.push(await read_text(rbql_csv, t, c.enc, c.dlm, c.pol, c.comment_prefix, c.has_header || false, c.bulk || false));
     return out;
 };
